@@ -611,6 +611,97 @@ def form_call(case, P, qp, J):
     raise C.ToolError(rt)
 
 
+# ------------------------------------------------------------------------------------------------
+# container forms of every sequence argument (helpers shared with harness/c10.py)
+# ------------------------------------------------------------------------------------------------
+SEQ_KINDS = [('he', ()), ('h', ()), ('lag', (0.5,)), ('jac', (0.5, 1.5)), ('legendre', ()), ('cheby1', ()), ('cheby2', ()),
+             ('cheby3', ()), ('cheby4', ())]
+SEQ_ARGS = (['jder.s', 'qbfsder.cs', 'q2dder.cns', 'zzqbfs.coefs', 'zzqcon.coefs', 'zzq2d.cm0', 'zzq2d.ams', 'zzq2d.bms',
+             'zzq2d.ams-inner', 'zzq2d.bms-inner', 'zzq2d.all', 'zernseq.nms', 'zernseq.rows']
+            + [f'derseq.ns/{k}' for k, _ in SEQ_KINDS])
+# cheby.py is not this check's to repair: np.asarray(ns) on a one-shot iterable (see notes/findings_C09.txt)
+SEQ_KNOWN = {('derseq.ns/cheby2', 'TypeError'): 'cheby-der-seq-one-shot-ns', ('derseq.ns/cheby4', 'TypeError'): 'cheby-der-seq-one-shot-ns'}
+
+
+def _cheby_one_shot_witness():
+    P, qp, J = _impl()
+    try:
+        P.cheby2_der_seq(iter([0, 1, 2]), np.linspace(-0.5, 0.5, 3))
+        P.cheby4_der_seq((n for n in [0, 1, 2]), np.linspace(-0.5, 0.5, 3))
+    except TypeError:
+        return True
+    return False
+
+
+KNOWN = {'cheby-der-seq-one-shot-ns': {'witness': _cheby_one_shot_witness}}
+
+
+def seq_call(case, P, qp, J):
+    from harness import c10 as H10
+    rt = case['routine']
+    cs, j, m = case['cs'], case['j'], case['m']
+    x = np.array(case['pts'], dtype=float)
+    u = np.array(case['upts'], dtype=float)
+    t = np.array(case['tpts'], dtype=float)
+    if rt == 'jder.s':
+        return lambda W: J.jacobi_sum_clenshaw_der(W(cs), case['alpha'], case['beta'], x, j=j)
+    if rt == 'qbfsder.cs':
+        return lambda W: qp.clenshaw_qbfs_der(W(cs), u * u, j=j)
+    if rt == 'q2dder.cns':
+        return lambda W: qp.clenshaw_q2d_der(W(cs), m, u * u, j=j)
+    if rt.startswith('derseq.ns/'):
+        kind = rt.split('/')[1]
+        params = dict(SEQ_KINDS)[kind]
+        xx = x + 1.5 if kind == 'lag' else x
+        return lambda W: getattr(P, FAM_SEQ[kind])(W(case['ns']), *params, xx)
+    if rt == 'zernseq.nms':
+        return lambda W: P.zernike_nm_der_seq(W(case['znms']), u, t, norm=case['norm'])
+    if rt == 'zernseq.rows':
+        return lambda W: P.zernike_nm_der_seq([W(q) for q in case['znms']], u, t, norm=case['norm'])
+    return H10.seq_call(case, P, qp, J)         # the sag-and-slope evaluators: all three outputs are compared
+
+
+def seq_values(case):
+    from harness import c10 as H10
+    rt = case['routine']
+    if rt.startswith('derseq.ns/'):
+        return case['ns']
+    if rt == 'zernseq.nms':
+        return case['znms']
+    if rt == 'zernseq.rows':
+        return case['znms'][0]
+    return H10.seq_values(case)
+
+
+def seq_extra(rng, i, rt):
+    start = int(rng.integers(0, 4))
+    consecutive = list(range(start, start + int(rng.integers(1, 6))))
+    sparse = sorted(int(v) for v in rng.choice(np.arange(0, 14), size=int(rng.integers(1, 6)), replace=False))
+    zn = [(0, 0), (1, 1), (1, -1), (2, 0), (2, 2), (3, -1), (3, 3), (4, 0), (4, -2), (5, 1)]
+    pick = sorted(int(v) for v in rng.choice(len(zn), size=int(rng.integers(1, 6)), replace=False))
+    return {'j': 1 + i % 3, 'ns': consecutive if i % 2 else sparse, 'znms': [list(zn[q]) for q in pick], 'norm': bool(i % 2)}
+
+
+def pred_seq(case):
+    from harness import c10 as H10
+    return H10.pred_seq(case, call=seq_call)
+
+
+def seq_cases(rng, reps):
+    from harness import c10 as H10
+    out = H10.seq_cases(rng, reps, args=SEQ_ARGS, values=seq_values, extra=seq_extra)
+    # `range` needs consecutive orders: make sure every sequence routine sees one
+    for case in out:
+        if case['form'] == 'range' and case['routine'].startswith('derseq'):
+            break
+    else:
+        for kind, _ in SEQ_KINDS:
+            case = dict(H10.seq_random(rng, 1), item='seqarg', routine=f'derseq.ns/{kind}', form='range')
+            case.update(seq_extra(rng, 1, case['routine']))
+            out.append(case)
+    return out
+
+
 def pred_forms(case):
     """(coords) the routine on int / float32 / 0-d / 2-D / scalar coordinates must return what it returns on the float64
     array with the same values;  (buffer) with a caller-supplied `alphas` buffer, zeroed or dirty, the routine must return
@@ -728,6 +819,8 @@ def pred(case):
             return I(pred_alias, case)
         if it in ('coords', 'buffer', 'signedm'):
             return I(pred_forms, case)
+        if it == 'seqarg':
+            return I(pred_seq, case)
         if it == 'jder':
             s, a, b, j = case['s'], case['alpha'], case['beta'], case['j']
             x = np.asarray(case['x'], dtype=float)
@@ -1427,6 +1520,18 @@ def correspondence(ctx):
             ctx.case('signedm', sm, nontrivial=True, tag=f'm=-{sm["m"]}')
             run_pred('signedm', sm)
 
+    # ------------------------------------------------ every sequence argument in every container form
+    for case in seq_cases(rng, ctx.scale(2, 10)):
+        ctx.case('seqarg', case, nontrivial=True, tag=f'{case["routine"]}/{case["form"]}')
+        ok, detail = pred_safe(case, ctx)
+        if not ok:
+            key = next((k for (rt_, exn), k in SEQ_KNOWN.items() if rt_ == case['routine'] and f'raised {exn}' in detail
+                        and case['form'] not in ('list', 'tuple', 'ndarray', 'range', 'deque')), None)
+            if key:
+                ctx.filtered_known[key] += 1
+            else:
+                ctx.pred_fail('seqarg', case, detail)
+
     # ------------------------------------------------ conic base surfaces and Q2d_and_der (x/raytracing/surfaces.py)
     S = _surf()
     kappas = [-2.5, -1.0, -0.7, 0.0, 0.6, 1.3]
@@ -1693,7 +1798,10 @@ MANIFEST_ENTRY = {
              'compute_z_zprime_Q2d and Q2d_and_der end to end. EXECUTED INPUT FORMS: float64 / float32 / int64 / int32 / 0-d / 2-D / 3-D / '
              'strided coordinate arrays (Python and NumPy scalars where the docstring allows them), list / tuple / ndarray (int, f32, f64) '
              'coefficients evaluated twice on the same objects, zeroed and dirty caller alphas buffers, signed m, cm0=None, the boundary '
-             'points r=0, u=0, u=1, x=+-1, rho=0.'),
+             'points r=0, u=0, u=1, x=+-1, rho=0; every sequence argument (coefficients s / cs / cns / coefs / cm0 / ams / bms and their inner lists, '
+             'orders ns of the nine *_der_seq routines, nms of zernike_nm_der_seq and its rows) as list / tuple / ndarray / generator / '
+             'iterator / map / zip / chain / reversed / dict views / deque / range, result = result for the same items as a list (item '
+             'seqarg); gen_iterable_arguments: translated fact that these arguments are materialised first or read exactly once.'),
     'note': ('partial: the Python loops / NumPy plumbing around the translated steps are tied to the model by execution, not by proof; '
              'the *_der_seq sweeps and cheby*_der are compared, not separately proved or translated; the structural facts are opaque '
              'Booleans for Lean; exact Fraction / polynomial-object streams are skipped with a note when the implementation does not '
